@@ -168,7 +168,9 @@ SIG_C06 |= {"invalid-close-frame-accepted", "close-error-differs-from-the-frame"
 
 def wsconn_model(ctx, cfgs):
     for c in cfgs:
-        rec, _ = ctx.tlc("WSConn", "WSConn.%s.cfg" % c, name="WSConn-" + c, timeout=3000)
+        # thorough tier: per-action coverage of every configuration; an action of WSConn that no configuration of this check
+        # ever takes is listed in the evidence (model_actions_never_taken)
+        rec, _ = ctx.tlc("WSConn", "WSConn.%s.cfg" % c, name="WSConn-" + c, timeout=6000, coverage=not ctx.quick())
         ctx.count_model(rec)
 
 
@@ -202,10 +204,16 @@ def conc_campaign(ctx, n, only, extra_args=()):
                          "(role, mode, actors, closer, echo, window) configurations")
 
 
+SIG_REFINE = {"not-a-behaviour-of-WSConn", "invariant-of-WSConn-violated-on-a-real-execution"}
+
+
 @check("C16")
 def c16(ctx, replay):
-    wsconn_model(ctx, ["quick"] if ctx.quick() else ["quick", "thorough"])
+    wsconn_model(ctx, ["quick", "quick-server"] if ctx.quick() else ["quick", "quick-server", "thorough"])
     wsconn_deviation_regression(ctx, ["DataAfterClose", "EchoAfterOwnClose"])
+    # refinement: real executions of the model's own scenario replayed through WSConn's actions (NothingAfterClose and the
+    # other invariants of the configuration evaluated in every state on the way)
+    core.refine_validate(ctx, 200 if ctx.quick() else 1500, only=SIG_REFINE)
     conc_campaign(ctx, 300 if ctx.quick() else 4000, SIG_C16)
     if not ctx.quick():
         repo_tests_traced(ctx, SIG_C16)
@@ -214,7 +222,8 @@ def c16(ctx, replay):
 
 @check("C05")
 def c05(ctx, replay):
-    wsconn_model(ctx, ["quick"] if ctx.quick() else ["quick", "thorough"])
+    wsconn_model(ctx, ["quick", "quick-server"] if ctx.quick() else ["quick", "quick-server", "thorough"])
+    core.refine_validate(ctx, 200 if ctx.quick() else 1500, only=SIG_REFINE)
     conc_campaign(ctx, 300 if ctx.quick() else 4000, SIG_C05)
     repo_tests_traced(ctx, SIG_C05 - {"data-frame-by-non-owner-of-message"})
     race_campaign(ctx, 150 if ctx.quick() else 1500)
